@@ -292,6 +292,7 @@ type tcpModel struct {
 	cfg       muxCfg
 	lis       *fakeLis
 	m         *TCPMuxDefault
+	front     tcpMuxFront // what the application talks to (the mux itself, or MultiTCPMuxDefault in front of it)
 	clients   []*tcpClient
 	conns     map[string]*tcpRefConn // by ufrag: the registered connection
 	all       []*tcpRefConn
@@ -308,11 +309,21 @@ type tcpModel struct {
 
 const c15timeout = 30 * time.Second
 
+type tcpMuxFront interface {
+	GetConnByUfrag(ufrag string, isIPv6 bool, local net.IP) (net.PacketConn, error)
+	RemoveConnByUfrag(ufrag string)
+	Close() error
+}
+
 func newTCPModel(raw json.RawMessage) *tcpModel {
 	tm := &tcpModel{conns: map[string]*tcpRefConn{}, readers: map[string][]*tcpReader{}, t0: time.Now(), gotClosed: map[int][]string{}, everShared: map[int]bool{}}
 	_ = json.Unmarshal(raw, &tm.cfg)
 	tm.lis = &fakeLis{ch: make(chan net.Conn), closed: make(chan struct{}), addr: &net.TCPAddr{IP: net.ParseIP("10.0.0.1").To4(), Port: 7001}}
 	tm.m = NewTCPMuxDefault(TCPMuxParams{Listener: tm.lis, Logger: nopLogger{}, ReadBufferSize: 16, WriteBufferSize: tm.cfg.WriteBuffer})
+	tm.front = tm.m
+	if tm.cfg.Kind == "multi" {
+		tm.front = NewMultiTCPMuxDefault(tm.m)
+	}
 	synctest.Wait()
 
 	return tm
@@ -499,7 +510,7 @@ func (tm *tcpModel) Apply(ev string) {
 	case "get":
 		u := f[1]
 		isNew := false
-		h, err := tm.m.GetConnByUfrag(u, false, net.ParseIP("10.0.0.1").To4())
+		h, err := tm.front.GetConnByUfrag(u, false, net.ParseIP("10.0.0.1").To4())
 		if tm.muxClosed {
 			if err == nil {
 				tm.problem("", "GetConnByUfrag succeeded on a closed mux")
@@ -579,10 +590,10 @@ func (tm *tcpModel) Apply(ev string) {
 			tm.problem("", "a reply to %s was accepted although that client is not attached to this connection", cl.addr)
 		}
 	case "remove":
-		tm.m.RemoveConnByUfrag(f[1])
+		tm.front.RemoveConnByUfrag(f[1])
 		tm.killConn(tm.conns[f[1]])
 	case "closemux":
-		if err := tm.m.Close(); err != nil {
+		if err := tm.front.Close(); err != nil {
 			tm.problem("", "mux Close returned %v", err)
 		}
 		tm.muxClosed = true
@@ -748,7 +759,7 @@ func (tm *tcpModel) Close() {
 		}
 	}
 	if !tm.muxClosed {
-		_ = tm.m.Close() // must return only when every goroutine of the mux has ended, whatever the clients do
+		_ = tm.front.Close() // must return only when every goroutine of the mux has ended, whatever the clients do
 	}
 	for _, cl := range tm.clients {
 		_ = cl.end.Close()
@@ -774,6 +785,7 @@ func checkC15(c *runCtx) {
 	}
 	vtSearch(c, p, vtSpec{Name: fmt.Sprintf("TCPMuxDefault, all sequences of length <= %d, <= 3 clients of 10 kinds", depth), Model: "tcpmux", Cfg: muxCfg{Depth: depth}, Deadline: dl})
 	vtSearch(c, p, vtSpec{Name: fmt.Sprintf("TCPMuxDefault with a write buffer, all sequences of length <= %d", depth-1), Model: "tcpmux", Cfg: muxCfg{Depth: depth - 1, WriteBuffer: 4096}, Deadline: dl})
+	vtSearch(c, p, vtSpec{Name: fmt.Sprintf("MultiTCPMuxDefault in front of the mux, all sequences of length <= %d", depth-2), Model: "tcpmux", Cfg: muxCfg{Depth: depth - 2, Kind: "multi"}, Deadline: dl})
 	if os.Getenv("VERIF_VARIANT") == "instr" {
 		b := 4
 		if !c.quick() {
